@@ -1239,7 +1239,7 @@ class ValueObject(Value):
             args_.addArgs(fn.getArgNames())
             args_.setArgs([None], [self])
             try:
-                return fn.execute(args_).value
+                return fn.execute(args_, None, None).asString().value
             except CklRuntimeError as e:
                 e.stacktrace.append("_str_")
                 raise
@@ -1276,7 +1276,7 @@ class ValueObject(Value):
         current = self
         while current.hasItem("_proto_"):
             current = current.getItem("_proto_")
-            if not current:
+            if not current or not current.isObject():
                 break
             if current.hasItem(key):
                 return current.getItem(key)
